@@ -92,6 +92,10 @@ def check_fft(case, ctx):
 
 
 # ---- (2) band-complete mdft / czt pairs ----------------------------------------------------------------
+# (n, k) for which the floating-point product n * (k / n) is not exactly k: "shape * Q == samples_out" holds only to rounding there
+INEXACT = [(n, k) for n in range(1, 41) for k in range(n, n + 41) if n * (k / n) != k]
+
+
 def strat_pairs(tier):
     nmax = {'quick': 14, 'thorough': 40}[tier]
     ax = U.axis_len(nmax)
@@ -102,14 +106,21 @@ def strat_pairs(tier):
         'shape': st.one_of(st.tuples(ax, ax).map(list), ax.map(lambda k: [k, k])),
         'extra': st.tuples(extra(), extra()).map(list),       # k = n + extra  (per axis)
         'kind': U.field_kinds, 'method': st.sampled_from(['mdft', 'czt']), 'order': st.sampled_from(['fwd-inv', 'inv-fwd']),
-        'prec': st.sampled_from([64, 64, 64, 32]), 'seed': U.seeds, 'mag': MAG})
+        'prec': st.sampled_from([64, 64, 64, 32]), 'seed': U.seeds, 'mag': MAG,
+        # per axis: -1 = keep the drawn (n, extra), otherwise an index into INEXACT (small sizes first in the quick tier)
+        'inexact': st.one_of(st.just([-1, -1]), st.just([-1, -1]), st.tuples(st.integers(-1, {'quick': 24, 'thorough': len(INEXACT) - 1}[tier]),
+                                                                             st.integers(-1, {'quick': 24, 'thorough': len(INEXACT) - 1}[tier])).map(list))})
 
 
 def check_pairs(case, ctx):
     """a transform onto the full Nyquist band (n*Q samples) followed by the inverse with Q=1 returns the field; energy conserved."""
     from prysm.fttools import mdft, czt
     _reset()
-    shape, extra, method, prec = case['shape'], case['extra'], case['method'], case['prec']
+    shape, extra, method, prec = list(case['shape']), list(case['extra']), case['method'], case['prec']
+    for ax_, idx in enumerate(case.get('inexact', [-1, -1])):
+        if idx >= 0:
+            shape[ax_], extra[ax_] = INEXACT[idx][0], INEXACT[idx][1] - INEXACT[idx][0]
+            ctx.label('n*(k/n)!=k')
     k = (shape[0] + extra[0], shape[1] + extra[1])
     Q = (k[0] / shape[0], k[1] / shape[1])
     mag, maglabel = _mag(case, prec)
